@@ -449,6 +449,11 @@ public:
       if (Callee) {
         o["key"] = A.inDirs(Callee->getLocation()) || (Callee->getTemplateInstantiationPattern() && A.inDirs(Callee->getTemplateInstantiationPattern()->getLocation())) ? A.fnKey(Callee) : "";
         if (Callee->isNoReturn()) o["noreturn"] = true;
+        if (const TemplateArgumentList *TAL = Callee->getTemplateSpecializationArgs()) {
+          json::Array ta;
+          for (unsigned ti = 0; ti < TAL->size() && ti < 8; ++ti) { std::string a; { raw_string_ostream os(a); TAL->get(ti).print(A.FD->getASTContext().getPrintingPolicy(), os, true); } ta.push_back(a); }
+          o["targs"] = std::move(ta);
+        }
         if (auto *MD = dyn_cast<CXXMethodDecl>(Callee)) { if (MD->isVirtual()) o["virtual"] = true; if (MD->isConst()) o["const"] = true; }
       }
       if (auto *MC = dyn_cast<CXXMemberCallExpr>(CE)) { if (auto *Obj = MC->getImplicitObjectArgument()) { o["obj"] = A.text(Obj); o["objKind"] = A.objKind(Obj); } }
